@@ -9,7 +9,7 @@ from cirbo.core.circuit import Circuit, Gate, gate as G
 KINDS = [
     "add_gate", "emplace_gate", "remove_gate", "rename_gate", "mark_as_output", "set_outputs", "set_inputs",
     "order_inputs", "order_outputs", "add_inputs", "replace_inputs", "connect", "replace_subcircuit",
-    "make_block", "make_block_from_slice", "delete_block", "remove_block", "into_bench", "copy",
+    "make_block", "make_block_from_slice", "delete_block", "remove_block", "into_bench", "copy", "reinsert",
 ]
 
 
@@ -70,6 +70,15 @@ def apply_call(c, call):
         c.delete_block(call["name"])
     elif k == "remove_block":
         c.remove_block(call["name"])
+    elif k == "reinsert":
+        # remove a gate nobody uses and add another gate under the same label (the size stays the same)
+        was_output = [i for i, o in enumerate(c.outputs) if o == call["label"]]
+        c.remove_gate(call["label"])
+        c.add_gate(Gate(call["label"], getattr(G, call["type"]), tuple(call["operands"])))
+        outs = list(c.outputs)
+        for i in was_output:
+            outs.insert(min(i, len(outs)), call["label"])
+        c.set_outputs(outs)
     elif k == "into_bench":
         c.into_bench()
     elif k == "copy":
@@ -194,6 +203,16 @@ def random_call(rnd, c, step=0, kinds=None):
             return None
         return dict(kind=k, name=f"sl{step}_{rnd.randrange(100)}", inputs=rnd.sample(labs, rnd.randint(0, min(3, len(labs)))),
                     outputs=rnd.sample(labs, rnd.randint(1, min(2, len(labs)))))
+    if k == "reinsert":
+        free = [l for l in labs if c.gates[l].gate_type != G.INPUT and c.gates[l].operands and not any(l in g.operands for g in c.gates.values())]
+        if not free:
+            return None
+        l = rnd.choice(free)
+        ar = len(c.gates[l].operands)
+        others = [t for t in circgen.types_for_arity(ar) if t != c.gates[l].gate_type]
+        if not others:
+            return None
+        return dict(kind=k, label=l, type=rnd.choice(others).name, operands=list(c.gates[l].operands))
     if k in ("delete_block", "remove_block"):
         if not c.blocks:
             return None
